@@ -8,12 +8,22 @@ TABLE = {
                             'the callback arities of the default operators (event mode); _create_state_functions builds the getter list '
                             'with one entry per block variable, in order (the variable itself when simple, its ldu-guarded read when '
                             'composite); assumed with a bounded stand-in: the template call sites (getter list / tuple(block_vars) / '
-                            'symbol-name tuple come from the same list) and that loop options carry the directives'),
+                            'symbol-name tuple come from the same list) and that loop options carry the directives; proved since (event mode, contracts/'
+                            'c04_converters.py): the if / while / for visitors hand the SAME block-variable list to the state functions, the '
+                            'nonlocal declarations and the symbol-name tuple, and the break / continue lowering (guard variable, guarded else, '
+                            'extra loop test, else clause visited outside the loop scope)'),
     'C04': dict(level='other', bounded=[('c04_scan.py', 'NoNative scan of to_code + operator invocation counts, constructs planted in every context')],
                 explanation='proved (event mode): PyToPy.transform_ast runs exactly the documented pass pipeline, in order, asserts / '
-                            'lists+slices only under their feature flag (trace equivalence with the specification program); '
-                            'assumed with a bounded stand-in: each pass eliminates its constructs (AST scan of the generated code with '
-                            'the NoNative predicate and dynamic operator counts); per-pass shape obligations are not built in this revision'),
+                            'lists+slices only under their feature flag (trace equivalence with the specification program); the visitors that do '
+                            'the routing, each against a specification program taken from the construct -> operator table (contracts/'
+                            'c04_converters.py): conditional expression -> ag__.if_exp, assert -> ag__.assert_stmt, unary / binary operators '
+                            'with an overload, calls -> ag__.converted_call with the four exemptions, variable loads -> ag__.ld, list display / '
+                            'append -> ag__.new_list / list_append, if / while / for -> ag__.if_stmt / while_stmt / for_stmt with the block '
+                            'variables, reserved names, empty-else padding, extra loop test and iterate expansion, break and continue lowering; '
+                            'the template text, every replacement and their order are compared; templates.replace itself, generic_visit and '
+                            'the remaining visitors (slices, directives, return lowering, Compare / BoolOp chains, visit_Continue) are '
+                            'assumed with the bounded stand-in: AST scan of the generated code with the NoNative predicate and dynamic '
+                            'operator counts'),
     'C06': dict(level='other', bounded=[('c06_lastwriter.py', 'last-writer oracle on executed programs + fixed-point check on every graph'),
                                         ('rt_worklist.py', 'worklist fixed-point contract on small graphs'),
                                         ('rt_rd.py', 'run-time evaluation of the transfer-function contract and of the assumed _NodeState contracts')],
